@@ -193,3 +193,33 @@ def extra_stage(tier, seed, tmp):
     from ..runner import suite_under_monitors
 
     return suite_under_monitors("C01", seed, tmp)
+
+
+def _dataset_case(name, augment):
+    def f(ctx):
+        from .. import datasets
+
+        if not datasets.available(name):
+            ctx.skip("dataset file missing: " + name)
+            return
+        rng = np.random.default_rng([1, int(augment)])
+        spec = datasets.load_spec(name, 600)
+        if augment:
+            spec = datasets.augment_with_landmarks(rng, spec, 40)
+        g = M.build(spec)
+        for stage in ("initial", "after one iteration"):
+            edges = list(g._edges)
+            for j in rng.permutation(len(edges))[:700]:
+                e = edges[int(j)]
+                O.check_edge_jacobians(ctx, e, 'dataset:' + name, fd=False)
+            try:
+                M.quiet_optimize(g, max_iter=1, tol=0.0)
+            except Exception as ex:
+                ctx.count("dataset_optimizer_exception:" + type(ex).__name__)
+                break
+        ctx.count("dataset:" + name + (":augmented" if augment else ""))
+        ctx.nontrivial("dataset-%s-%s" % (name, augment))
+    return f
+
+
+DATASET_CASES = [_dataset_case("intel", False), _dataset_case("intel", True), _dataset_case("garage", False), _dataset_case("garage", True)]
